@@ -158,6 +158,18 @@ def w_round2(x, parts, sl, u):
     return flat, lo
 
 
+def w_round4(x, masks, n):
+    conn = np.zeros((n, 4), dtype=np.uint8)
+    dofs = conn * 3                            # R-NARROW-INT: narrow table in arithmetic
+    keep = np.zeros_like(x)
+    out = []
+    for k, mk in enumerate(masks):
+        keep[mk] = x[mk]
+        keep[mk] += 1.0
+        out.append(np.sqrt(keep))             # R-LOOP-BUFFER: whole read of a buffer that is never reset
+    return dofs, out
+
+
 def w_round3(x, dQ, n):
     xi = np.zeros_like(x)
     xi[:2] = 2 * x[:2] / 3                     # R-INT-TRUNC: quotient into an array typed like the argument
